@@ -1,14 +1,40 @@
-"""Contracts for numpoly/align.py (property C04; used by almost every other function)."""
+"""Contracts for numpoly/align.py (property C04; used by almost every other function).
+
+Value-level statements use the abstract value val(p, i) of element i.  Bridge axioms (definition of
+the abstract view, embodied by conc/model.py and listed as assumptions):
+  B1  dropping all-zero terms / unused names does not change val          (from_attributes' cleaning)
+  B2  if r has p's rows and names and C_r(t, i) = C_p(t, proj(i)) then val(r, i) = val(p, proj(i))   (broadcasting)
+  B4  if every row of p occurs in r with the same coefficient and all other rows of r have coefficient 0,
+      then val(r, i) = val(p, i)                                           (adding zero terms, reordering)
+Each use of a bridge is preceded by obligations establishing its premises on the real code.
+"""
 from __future__ import annotations
 import z3
 from engine.contract import Contract, Case
-from engine.logic import I, Mono, Idx, R, Shp, bshape, bok, proj, inshape
-from engine.polymodel import Poly, Region, Names, nlen
+from engine import values as V
+from engine.logic import I, Mono, Idx, R, Shp, bshape, bok, proj, inshape, ndim
+from engine.polymodel import (Poly, Arr, ExpMat, NamesV, Region, Names, nlen, shape_axioms, mono_axioms, names_distinct)
+from engine.sortmodel import meq, order_axioms
 from engine.values import U
 
 
+def extra_shape_axioms(ctx):
+    s, t, u = (z3.Const(ctx.fresh(n), Shp) for n in "stu")
+    return [
+        z3.ForAll([s, t], z3.Implies(bok(s, t), z3.And(bok(s, bshape(s, t)), bok(t, bshape(s, t)),
+                                                       bshape(s, bshape(s, t)) == bshape(s, t),
+                                                       bshape(t, bshape(s, t)) == bshape(s, t)))),
+        z3.ForAll([s, t, u], z3.Implies(z3.And(bok(s, t), bok(bshape(s, t), u)),
+                                        z3.And(bok(s, bshape(bshape(s, t), u)), bok(t, bshape(bshape(s, t), u)),
+                                               bok(u, bshape(bshape(s, t), u)),
+                                               bshape(s, bshape(bshape(s, t), u)) == bshape(bshape(s, t), u),
+                                               bshape(t, bshape(bshape(s, t), u)) == bshape(bshape(s, t), u),
+                                               bshape(u, bshape(bshape(s, t), u)) == bshape(bshape(s, t), u)))),
+    ]
+
+
 def aligned_family(ex, polys, base="al", shape=None, same_shape=True):
-    """Fresh-or-same results of an alignment: shared N, D, rows, names (and shape)."""
+    """Fresh results of an alignment: shared N, D, rows, names (and shape)."""
     ctx = ex.ctx
     N, D = ctx.int(f"N_{base}"), ctx.int(f"D_{base}")
     rf = ctx.func(f"row_{base}", I, Mono)
@@ -30,6 +56,213 @@ def aligned_family(ex, polys, base="al", shape=None, same_shape=True):
     return out
 
 
+def sym_polys(ex, k, broadcast=True, same_shape=False):
+    ctx = ex.ctx
+    for a in shape_axioms(ctx) + extra_shape_axioms(ctx) + mono_axioms(ctx) + order_axioms(ctx):
+        ctx.assume(a)
+    from contracts.construct import keyok, eok_axioms
+    for a in eok_axioms():
+        ctx.assume(a)
+    ps = []
+    for j in range(k):
+        p = Poly(ctx, f"x{j}", region=Region("caller", f"argument {j}"))
+        ctx.assume(p.wf(ctx))
+        ctx.assume(ctx.forall_range(0, p.N, lambda t, p=p: keyok(p.row(t), p.D)))
+        ps.append(p)
+    if same_shape:
+        for p in ps[1:]:
+            ctx.assume(p.shape == ps[0].shape)
+    elif broadcast:
+        s = ps[0].shape
+        for p in ps[1:]:
+            ctx.assume(bok(s, p.shape))
+            s = bshape(s, p.shape)
+    return ps
+
+
+class AlignShape(Contract):
+    name = "numpoly.align_shape"
+    relpath = "numpoly/align.py"
+    func = "align_shape"
+    properties = ("C04", "C12", "C17")
+    assumptions = ("B1, B2 (definition of the abstract view under cleaning and broadcasting)",
+                   "arity 1..2 enumerated (variadic *polys; arity 3-4: bounded check); operands given as ndpoly (other kinds: aspolynomial's contract)")
+
+    def cases(self):
+        for k in (1, 2):           # arity 3 multiplies the paths of two rebuilt operands; covered by the bounded check
+            def make_env(ex, k=k):
+                ps = sym_polys(ex, k)
+                ex.inputs = ps
+                return {"polys": tuple(ps)}
+
+            def check(out, k=k):
+                ex, ctx = out.ex, out.ctx
+                ex.oblige("raises.nothing", z3.BoolVal(out.kind == "return"), "post")
+                if out.kind != "return":
+                    return
+                res = out.value
+                ok = isinstance(res, tuple) and len(res) == k and all(isinstance(r, Poly) for r in res)
+                ex.oblige("post.one_result_per_argument_in_order", z3.BoolVal(ok), "post")
+                if not ok:
+                    return
+                common = ex.inputs[0].shape
+                for p in ex.inputs[1:]:
+                    common = bshape(common, p.shape)
+                for j, (r, p) in enumerate(zip(res, ex.inputs)):
+                    ex.oblige(f"post.common_shape[{j}]", r.shape == common, "post")
+                    ex.oblige(f"post.dtype_kept[{j}]", r.dtype == p.dtype, "post",
+                              note="broadcasting must not promote the coefficient dtype")
+                    if r is p:
+                        continue                 # returned unchanged: only legal when the shape already is the common one
+                    fa = getattr(r, "from_attrs", None)
+                    okp = fa is not None
+                    ex.oblige(f"post.rebuilt_from_own_attributes[{j}]", z3.BoolVal(
+                        okp and getattr(fa["E"], "source", None) is p and isinstance(fa["names"], Poly)
+                        and getattr(fa["names"], "indeterminants_of", None) is p), "post")
+                    if not okp:
+                        continue
+                    Cin = V.as_seq(ex, fa["C"])
+                    ex.oblige(f"post.coefficients_are_broadcast_copies[{j}]", z3.And(Cin.n == p.N, ctx.forall_range(
+                        0, p.N, lambda t: z3.And(Cin.item(t).shape == common, ctx.forall_idx(
+                            lambda i: Cin.item(t).elem(i) == p.C(t, proj(i, common, p.shape)), common)))), "post")
+                    # bridge B1+B2 (premises established just above)
+                    ctx.assume(ctx.forall_idx(lambda i: r.val(i) == p.val(proj(i, common, p.shape)), common))
+                    ex.oblige(f"post.denotes_broadcast_argument[{j}]", ctx.forall_idx(
+                        lambda i: r.val(i) == p.val(proj(i, common, p.shape)), common), "post")
+                    ex.oblige(f"post.fresh[{j}]", z3.BoolVal(r.region.owner == "fresh"), "post")
+            yield Case(f"arity={k}", make_env, check)
+
+    def apply(self, ex, args, kw, node):
+        polys = list(args)
+        if not all(isinstance(p, Poly) for p in polys):
+            raise U("align_shape of non-ndpoly operands", node)
+        ctx = ex.ctx
+        site = ex.site("align_shape")
+        shape = polys[0].shape
+        for p in polys[1:]:
+            ex.oblige(f"pre({site}).shapes_broadcast", bok(shape, p.shape), "precondition", node)
+            shape = bshape(shape, p.shape)
+        out = []
+        from contracts.construct import keyok
+        for k, p in enumerate(polys):
+            q = Poly(ctx, ctx.fresh(f"as{k}"), shape=shape, dtype=p.dtype, region=Region("caller", "align_shape result (may be the argument)"))
+            ctx.assume(q.wf(ctx))
+            ctx.assume(ctx.forall_range(0, q.N, lambda t, q=q: keyok(q.row(t), q.D)))
+            ctx.assume(ctx.forall_idx(lambda i, p=p, q=q: q.val(i) == p.val(proj(i, shape, p.shape)), shape))
+            out.append(q)
+        return tuple(out)
+
+
+class AlignIndeterminants(Contract):
+    """Assumed for now (sorted-union of names, column scatter): decided by the bounded run-time check only."""
+    name = "numpoly.align_indeterminants"
+    relpath = "numpoly/align.py"
+    func = "align_indeterminants"
+    properties = ("C04",)
+
+    def cases(self):
+        return iter(())
+
+    def apply(self, ex, args, kw, node):
+        polys = list(args)
+        if not all(isinstance(p, Poly) for p in polys):
+            raise U("align_indeterminants of non-ndpoly operands", node)
+        ctx = ex.ctx
+        names = ctx.const("names_common", Names)
+        D = ctx.int("D_common")
+        ctx.assume(z3.And(nlen(names) == D, D >= 1, names_distinct(ctx, names)))
+        out = []
+        from contracts.construct import keyok
+        for k, p in enumerate(polys):
+            q = Poly(ctx, ctx.fresh(f"ai{k}"), N=p.N, D=D, shape=p.shape, dtype=p.dtype, names=names,
+                     C=p.frozenC(), region=Region("caller", "align_indeterminants result (may be the argument)"))
+            ctx.assume(q.wf(ctx))
+            ctx.assume(ctx.forall_range(0, q.N, lambda t, q=q: keyok(q.row(t), q.D)))
+            ctx.assume(ctx.forall_idx(lambda i, p=p, q=q: q.val(i) == p.val(i), p.shape))
+            out.append(q)
+        hook = getattr(ex, "hooks", {}).get("after_align_indeterminants")
+        if hook:
+            hook(ex, out)
+        return tuple(out)
+
+
+class AlignExponents(Contract):
+    name = "numpoly.align_exponents"
+    relpath = "numpoly/align.py"
+    func = "align_exponents"
+    properties = ("C04", "C12", "C17")
+    assumptions = ("B4 (adding all-zero terms / reordering terms does not change the abstract value)",
+                   "arity 1..3 enumerated; assumed contract of align_indeterminants on the different-names path")
+
+    def cases(self):
+        for k in (1, 2, 3):
+            def make_env(ex, k=k):
+                ps = sym_polys(ex, k, broadcast=False)
+                ex.inputs = ps
+                ex.hooks = {"after_align_indeterminants": lambda ex_, res: setattr(ex_, "aligned_inputs", list(res))}
+                return {"polys": tuple(ps)}
+
+            def check(out, k=k):
+                self._check(out, k)
+            yield Case(f"arity={k}", make_env, check)
+
+    def _check(self, out, k):
+        ex, ctx = out.ex, out.ctx
+        ex.oblige("raises.nothing", z3.BoolVal(out.kind == "return"), "post")
+        if out.kind != "return":
+            return
+        res = out.value
+        ok = isinstance(res, tuple) and len(res) == k and all(isinstance(r, Poly) and hasattr(r, "from_attrs") for r in res)
+        ex.oblige("post.one_rebuilt_result_per_argument_in_order", z3.BoolVal(ok), "post")
+        if not ok:
+            return
+        r0 = res[0]
+        for j, r in enumerate(res):
+            fa = r.from_attrs
+            ex.oblige(f"post.fresh[{j}]", z3.BoolVal(r.region.owner == "fresh"), "post")
+            ex.oblige(f"post.retains_every_term_and_name[{j}]", z3.BoolVal(fa["rc"] is True and fa["rn"] is True), "post",
+                      note="alignment must not prune: the results have to share rows and keys")
+            ex.oblige(f"post.same_rows_as_first[{j}]", z3.And(r.N == r0.N, r.D == r0.D, ctx.forall_range(
+                0, r0.N, lambda t: r.row(t) == r0.row(t))), "post")
+            ex.oblige(f"post.same_names_as_first[{j}]", r.names == r0.names, "post")
+        # coefficient level: every term of operand j sits at its row with its coefficient; other rows are zero
+        work = getattr(ex, "aligned_inputs", None) or ex.inputs
+        for j, (r, p) in enumerate(zip(res, work)):
+            ex.oblige(f"post.shape_kept[{j}]", r.shape == p.shape, "post")
+            ex.oblige(f"post.dtype_kept[{j}]", r.dtype == p.dtype, "post")
+            # witness for "term t of operand j is present": its position among the unique stacked rows
+            lu = getattr(ex, "last_unique", None)
+            if lu is not None and getattr(lu.unique_of[0], "stack_of", None):
+                X, uq = lu.unique_of
+                off = X.stack_of[1][j]
+                where = (lambda t, off=off, uq=uq: uq.pos(t if (isinstance(off, int) and off == 0) else t + off))
+                ex.oblige(f"post.terms_kept[{j}]", ctx.forall_range(0, p.N, lambda t: z3.And(
+                    0 <= where(t), where(t) < r.N, meq(r.row(where(t)), p.row(t), p.D),
+                    ctx.forall_idx(lambda i: r.C(where(t), i) == p.C(t, i), p.shape))), "post",
+                    note="each term of the operand is present in the result with the same coefficient")
+            else:
+                ex.oblige(f"post.terms_kept[{j}]", z3.BoolVal(False), "post", note="no unique/vstack provenance found")
+            ex.oblige(f"post.no_new_terms[{j}]", ctx.forall_range(0, r.N, lambda g: z3.Implies(
+                ctx.forall_range(0, p.N, lambda t: z3.Not(meq(p.row(t), r.row(g), p.D))),
+                ctx.forall_idx(lambda i: r.C(g, i) == 0, p.shape))), "post",
+                note="rows that do not occur in the operand carry an all-zero coefficient")
+            # bridge B4 (premises just established; rows of r are pairwise distinct by WF)
+            ctx.assume(ctx.forall_idx(lambda i, r=r, p=p: r.val(i) == p.val(i), p.shape))
+        # value relative to the arguments themselves
+        for j, (r, x) in enumerate(zip(res, ex.inputs)):
+            ex.oblige(f"post.denotes_argument[{j}]", ctx.forall_idx(lambda i, r=r, x=x: r.val(i) == x.val(i), x.shape), "post")
+
+    def apply(self, ex, args, kw, node):
+        polys = list(args)
+        if not all(isinstance(p, Poly) for p in polys):
+            raise U("align_exponents of non-ndpoly operands", node)
+        res = aligned_family(ex, polys, base=ex.ctx.fresh("ae"), same_shape=False)
+        hook = getattr(ex, "hooks", {}).get("after_align")
+        if hook:
+            hook(ex, res)
+        return tuple(res)
+
+
 class AlignPolynomials(Contract):
     name = "numpoly.align_polynomials"
     relpath = "numpoly/align.py"
@@ -37,7 +270,40 @@ class AlignPolynomials(Contract):
     properties = ("C04",)
 
     def cases(self):
-        return iter(())          # verified through align_shape + align_exponents (see contracts below, later rounds)
+        for k in (1, 2, 3):
+            def make_env(ex, k=k):
+                ps = sym_polys(ex, k)
+                ex.inputs = ps
+                ex.ghost = {}
+
+                def after(ex_, res):
+                    ex_.ghost["ae_result"] = res
+                ex.hooks = {"after_align": after}
+                return {"polys": tuple(ps)}
+
+            def check(out, k=k):
+                ex, ctx = out.ex, out.ctx
+                ex.oblige("raises.nothing", z3.BoolVal(out.kind == "return"), "post")
+                if out.kind != "return":
+                    return
+                res = out.value
+                ok = isinstance(res, tuple) and len(res) == k and all(isinstance(r, Poly) for r in res)
+                ex.oblige("post.one_result_per_argument_in_order", z3.BoolVal(ok), "post")
+                if not ok:
+                    return
+                ex.oblige("post.is_result_of_align_exponents", z3.BoolVal(tuple(ex.ghost.get("ae_result", ())) == res), "post")
+                common = ex.inputs[0].shape
+                for p in ex.inputs[1:]:
+                    common = bshape(common, p.shape)
+                r0 = res[0]
+                for j, (r, x) in enumerate(zip(res, ex.inputs)):
+                    ex.oblige(f"post.common_shape[{j}]", r.shape == common, "post")
+                    ex.oblige(f"post.shared_rows_names[{j}]", z3.And(r.N == r0.N, r.D == r0.D, r.names == r0.names,
+                                                                     ctx.forall_range(0, r0.N, lambda t: r.row(t) == r0.row(t))), "post")
+                    ex.oblige(f"post.denotes_broadcast_argument[{j}]", ctx.forall_idx(
+                        lambda i, r=r, x=x: r.val(i) == x.val(proj(i, common, x.shape)), common), "post")
+                    ex.oblige(f"post.dtype_kept[{j}]", r.dtype == x.dtype, "post")
+            yield Case(f"arity={k}", make_env, check)
 
     def apply(self, ex, args, kw, node):
         site = ex.site("align_polynomials")
@@ -55,24 +321,4 @@ class AlignPolynomials(Contract):
         return tuple(res)
 
 
-class AlignExponents(Contract):
-    name = "numpoly.align_exponents"
-    relpath = "numpoly/align.py"
-    func = "align_exponents"
-    properties = ("C04",)
-
-    def cases(self):
-        return iter(())
-
-    def apply(self, ex, args, kw, node):
-        polys = list(args)
-        if not all(isinstance(p, Poly) for p in polys):
-            raise U("align_exponents of non-ndpoly operands", node)
-        res = aligned_family(ex, polys, base=ex.ctx.fresh("ae"), same_shape=False)
-        hook = getattr(ex, "hooks", {}).get("after_align")
-        if hook:
-            hook(ex, res)
-        return tuple(res)
-
-
-CONTRACTS = [AlignPolynomials(), AlignExponents()]
+CONTRACTS = [AlignPolynomials(), AlignExponents(), AlignShape(), AlignIndeterminants()]
